@@ -144,6 +144,11 @@ func checkCase(c *Case, count bool) error {
 			}
 			continue
 		}
+		// the iterator's reverse look-up over all methods at once agrees with Reverse asked method by method (each method with
+		// its own route's trailing-slash setting)
+		if d := rt.IterReverseDiff(r.F, q.Host, rp); d != "" {
+			return fmt.Errorf("options=%+v routes=%v: %s", c.G, r.Routes, d)
+		}
 		host := ref.StripHost(q.Host)
 		want, ok := ref.LookupAll(pats, host, rp)
 		if !ok {
